@@ -334,6 +334,14 @@ func checkNarrowing(c *Ctx, f *ssa.Function, cv *ssa.Convert) {
 		if u, w := userParamDerived(op); u {
 			user, what = true, w
 		}
+		// a parameter: look at what the module's call sites pass
+		if pv, ok := cv.X.(*ssa.Parameter); ok {
+			for _, at := range callerArgTerms(c, f, pv, 0) {
+				if u, w := userParamDerived(at); u {
+					user, what = true, w
+				}
+			}
+		}
 		// (1) interval domain (a parameter takes the union of what the module's call sites pass)
 		il, ih := interval(op, 0)
 		if pv, ok := cv.X.(*ssa.Parameter); ok {
@@ -416,7 +424,8 @@ func checkNarrowing(c *Ctx, f *ssa.Function, cv *ssa.Convert) {
 		if user {
 			R.Fail("R19.1", key, cv.Pos(), fn, fmt.Sprintf("user parameter %s is narrowed to %s with no dominating range check on the un-narrowed value: out-of-range values wrap silently instead of being rejected", what, cv.Type()))
 		} else {
-			R.Fail("R19.1", key, cv.Pos(), fn, "narrowing conversion is neither range-checked, masked, interval-safe nor in the reviewed table")
+			// not a request parameter: outside this property (packet-derived identifiers are C01 R01.5's, sizes R19.2's)
+			R.Info("R19.1", key, cv.Pos(), fn, "undischarged narrowing of a value that does not originate from a request parameter: outside C19")
 		}
 	}
 }
@@ -900,4 +909,40 @@ func ttlOrigin(c *Ctx, t *core.Term, depth int) string {
 		return ttlOrigin(c, call.Args[pi], depth+1)
 	}
 	return ""
+}
+
+// callerArgTerms returns the terms the module's call sites pass for a parameter (transitively through parameters).
+func callerArgTerms(c *Ctx, f *ssa.Function, p *ssa.Parameter, depth int) []*core.Term {
+	if depth > 3 {
+		return nil
+	}
+	idx := -1
+	for i, q := range f.Params {
+		if q == p {
+			idx = i
+		}
+	}
+	n := c.P.CallGraph().Nodes[f]
+	if idx < 0 || n == nil {
+		return nil
+	}
+	var out []*core.Term
+	for _, e := range n.In {
+		caller := e.Caller.Func
+		if !core.InModule(caller) || e.Site == nil || e.Site.Common().IsInvoke() {
+			continue
+		}
+		args := e.Site.Common().Args
+		if idx >= len(args) {
+			continue
+		}
+		for _, pa := range firstPath(caller, e.Site.Block()) {
+			env := core.NewEnv(c.P, pa)
+			out = append(out, env.Term(args[idx]))
+		}
+		if q, isP := c.P.Def(args[idx]).(*ssa.Parameter); isP {
+			out = append(out, callerArgTerms(c, caller, q, depth+1)...)
+		}
+	}
+	return out
 }
